@@ -22,7 +22,7 @@ RULE = ('honest: fixture + shipped recursive/dex proofs (model and code must acc
         'without the oods splice, for several (n_queries, pow bits 20..22, mined); forged output with the honest rest; every FRI inner authentication node '
         'corrupted; oods splice on the honest proof; parameter decoupling: trace halved & blow-up doubled, evaluation domain doubled with FRI '
         'untouched, blow-up = P-2 redeclared modulo P, n_queries = 0 / 2^40, security level above the configuration; vacuous-FRI forger (zero trace, DEEP quotient folded honestly '
-        'down to a last layer whose degree bound equals its domain size; quick: steps 4,4,3) x 12 re-declarations of the config that try to get it past the validation '
+        'down to a last layer whose degree bound equals its domain size; quick: steps 4,4,3 with blow-up 4 and with blow-up 1, i.e. log_n_cosets = 0) x 12 re-declarations of the config that try to get it past the validation '
         '(trailing step entries, negative first step, understated last bound, no / negative blow-up, overstated input size, fewer layers). non-trivial = forged.')
 ASSUMPTIONS = ['soundness against ARBITRARY adaptive provers is not decided (only the listed forgers and the C02 sweep are run)',
                'pipeline model: static layouts']
@@ -91,7 +91,7 @@ def cases(rng, tier, feats, drv_ok):
     # degree bound equals its domain size; the config is then re-declared in every way we can think of to get that past the
     # validation without touching the body (the config is not in the stone5 Fiat-Shamir seed).  None may be accepted.
     if HX and own:
-        specs = [('4,4,3', 2, 15, 20)] if tier == 'quick' else [('4,4,3', 2, 15, 20), ('4,4,4', 2, 15, 20), ('3,3', 1, 30, 20), ('4,4,4,4,4', 2, 16, 20)]
+        specs = [('4,4,3', 2, 15, 20), ('4,4,3', 0, 10, 20)] if tier == 'quick' else [('4,4,3', 2, 15, 20), ('4,4,3', 0, 10, 20), ('4,4,4,3', 0, 0, 30), ('4,4,4', 2, 15, 20), ('3,3', 1, 30, 20), ('4,4,4,4,4', 2, 16, 20)]
         res, _ = fw.run_split(lambda ls, **kw: fw.run_hx(HX, ls), [f'forge_vacuous {st} {c:x} {nq:x} {pw:x}' for st, c, nq, pw in specs])
         for (st, c, nq, pw), o in zip(specs, res):
             nm = f'forge_vacuous({st},{c},{nq},{pw})'
